@@ -152,7 +152,7 @@ def find_loops(body):
                     raise SliceError("do without while")
             else:
                 raise SliceError("do body not braced")
-            loops.append(("do", mo.end()))
+            loops.append(("do", mo.end(), mo.start(), j))
         else:
             if kw == "while" and mo.start() in do_tails:
                 continue
@@ -160,7 +160,8 @@ def find_loops(body):
             if j >= len(m) or m[j] != "(":
                 raise SliceError("loop header without parenthesis")
             close = _scan(m, j, "(", ")")
-            loops.append((kw, close + 1))
+            b = _skip_ws_comments(m, close + 1)
+            loops.append((kw, close + 1, mo.start(), b if b < len(m) and m[b] == "{" else -1))
     return loops
 
 
@@ -200,8 +201,14 @@ def read(path):
         return f.read()
 
 
-def locate(src, anchor, unit, nth=None):
-    hits = [m for m in re.finditer(anchor, src)]
+def locate(src, anchor, unit, nth=None, after=None):
+    start = 0
+    if after is not None:
+        ha = [m for m in re.finditer(after, src)]
+        if len(ha) != 1:
+            raise SliceError("%s: 'after' anchor %r matched %d times (need exactly 1)" % (unit, after, len(ha)))
+        start = ha[0].end()
+    hits = [m for m in re.compile(anchor).finditer(src, start)]
     if nth is not None:
         if len(hits) <= nth:
             raise SliceError("%s: anchor %r matched %d times, need index %d" % (unit, anchor, len(hits), nth))
@@ -233,7 +240,7 @@ def lower_params(params, unit):
         if m:
             out.append("%s*%s" % (m.group(1), m.group(2)))
             continue
-        m = re.match(r"^(.*?)\s*&\s*(\w+)$", p)
+        m = re.match(r"^(.*?)\s*&&?\s*(\w+)$", p)
         if m:
             ty, name = m.group(1), m.group(2)
             out.append("%s *%s__r" % (ty, name))
@@ -246,7 +253,7 @@ def lower_params(params, unit):
 def slice_unit(name, u, outdir, manifest):
     path = u["file"]
     src = read(path)
-    mo = locate(src, u["anchor"], name, u.get("nth"))
+    mo = locate(src, u["anchor"], name, u.get("nth"), u.get("after"))
     start = mo.start()
     line = src.count("\n", 0, start) + 1
     kind = u.get("kind", "func")
@@ -279,7 +286,7 @@ def slice_unit(name, u, outdir, manifest):
         raw = src[start:end]
         text = apply_rules(raw, rules, fired)
     elif kind == "func":
-        op = src.index("(", mo.end() - 1)
+        op = src.index("(", mo.start()) if "(" in mo.group(0) else src.index("(", mo.end() - 1)
         cp = _scan(src, op, "(", ")")
         ob = _skip_ws_comments(src, cp + 1)
         # skip trailing qualifiers (const / noexcept) of member functions
@@ -298,7 +305,9 @@ def slice_unit(name, u, outdir, manifest):
         # return type = head minus the function identifier
         mh = re.match(r"^(.*?)(\w+)\s*$", head, re.S)
         if not mh:
-            raise SliceError("%s: cannot parse head %r" % (name, head))
+            if not (u.get("rtype") and u.get("cname")):
+                raise SliceError("%s: cannot parse head %r" % (name, head))
+            mh = re.match(r"^(.*?)()$", head, re.S)
         rtype = " ".join(mh.group(1).split())
         rtype = re.sub(r"\b(?:static|inline|sonic_force_inline|sonic_static_inline|sonic_static_noinline|constexpr)\b", "", rtype)
         rtype = " ".join(rtype.split())
@@ -313,14 +322,32 @@ def slice_unit(name, u, outdir, manifest):
         if len(loops) != want:
             raise SliceError("%s: found %d loops, spec expects %d" % (name, len(loops), want))
         lc = u.get("loops", {})
-        for k in sorted(lc.keys(), reverse=True):
+        rb = u.get("rebase", {})
+        for k in sorted(set(lc.keys()) | set(rb.keys()), reverse=True):
             if k >= len(loops):
                 raise SliceError("%s: loop contract for loop %d but only %d loops" % (name, k, len(loops)))
-            kindk, idx = loops[k]
-            ltext, cont = (lc[k], False) if isinstance(lc[k], str) else lc[k]
-            # one line, so that #line numbering of the sliced text is not shifted
-            clause = " " + " ".join(x.strip() for x in ltext.strip().splitlines()) + " "
-            body = body[:idx] + clause + body[idx:]
+            kindk, idx, kwstart, bopen = loops[k]
+            if k in rb:
+                # Pointer re-basing (pure ghost addition): goto-instrument havocs every loop-assigned pointer variable to a
+                # nondeterministic pointer, which CBMC then dereferences against every object in the program (blow-up, probed).
+                # At the loop head we assert that the pointer still points into the object it pointed to at loop entry (an
+                # obligation, provable from the invariant) and re-express it as entry pointer + offset: an identity.
+                if bopen < 0:
+                    raise SliceError("%s: loop %d body is not braced (needed for re-basing)" % (name, k))
+                ins = " ".join('__CPROVER_assert(__CPROVER_same_object(%s, %s__e%d), "loop head: %s still points into the object it pointed to at loop entry"); %s = %s__e%d + (%s - %s__e%d);'
+                               % (v, v, k, v, v, v, k, v, v, k) for v, t in rb[k])
+                body = body[:bopen + 1] + " " + ins + body[bopen + 1:]
+            if k in lc:
+                ltext, cont = (lc[k], False) if isinstance(lc[k], str) else lc[k]
+                # one line, so that #line numbering of the sliced text is not shifted
+                clause = " " + " ".join(x.strip() for x in ltext.strip().splitlines()) + " "
+                body = body[:idx] + clause + body[idx:]
+            if k in rb:
+                prev = _mask_noncode(body[:kwstart]).rstrip()
+                if not prev or prev[-1] not in ";{}":
+                    raise SliceError("%s: loop %d is not at statement level (needed for re-basing)" % (name, k))
+                decl = " ".join("%s %s__e%d = %s;" % (t, v, k, v) for v, t in rb[k]) + " "
+                body = body[:kwstart] + decl + body[kwstart:]
         body = apply_rules(body, rules, fired)
         sig = apply_rules("%s %s(%s)" % (rtype, cname, cparams), DEFAULT_RULES, {})
         defs, undefs = [], []
@@ -330,9 +357,16 @@ def slice_unit(name, u, outdir, manifest):
         for r in refs:
             defs.append("#define %s (*%s__r)" % (r, r))
             undefs.append("#undef %s" % r)
-        for f in u.get("fields", []):
-            defs.append("#define %s (self->%s)" % (f, f))
-            undefs.append("#undef %s" % f)
+        if u.get("fields_mode") == "rewrite":
+            # member names are rewritten to self->name in the body text (needed when the body also names the same members
+            # of another object, e.g. rhs.shared_, which a field macro would clobber)
+            for f in u.get("fields", []):
+                body, n = re.subn(r"(?<![\w.>])%s\b" % re.escape(f), "self->" + f, body)
+                fired["field:" + f] = n
+        else:
+            for f in u.get("fields", []):
+                defs.append("#define %s (self->%s)" % (f, f))
+                undefs.append("#undef %s" % f)
         for a, t in u.get("autos", {}).items():
             body, n = re.subn(r"\bauto(\s*&?\s*)%s\b" % re.escape(a), lambda m_: "%s %s" % (t, a), body)
             fired["auto:" + a] = n
